@@ -71,8 +71,14 @@ fn install_panic_hook() {
             .location()
             .map(|l| format!("{}:{}", l.file(), l.line()))
             .unwrap_or_default();
-        let bt = std::backtrace::Backtrace::force_capture().to_string();
-        let frame = first_repo_frame(&bt);
+        // Symbolizing a backtrace costs ~0.4 s; the panic location is enough
+        // when it already lies in the repository.
+        let frame = if loc.contains("/repo/crates/") && std::env::var("VDRIVE_BT").is_err() {
+            String::new()
+        } else {
+            let bt = std::backtrace::Backtrace::force_capture().to_string();
+            first_repo_frame(&bt)
+        };
         let thread = std::thread::current().name().unwrap_or("").to_string();
         journal(&json!({"panic_hook": {"msg": msg, "loc": loc, "frame": frame, "thread": thread}}));
         *PANIC_INFO.lock() = Some((msg, loc, frame));
